@@ -11,6 +11,8 @@
 // the 256/512-bit and Decimal entries are not checkable here (CBMC diverges on bnum) and stay assumed.
 
 use core::cmp::Ordering;
+#[allow(unused_imports)]
+use core::ops::{Mul, Sub, Add, Div};
 use vstd::std_specs::cmp::{PartialOrdSpecImpl, OrdSpecImpl};
 use vstd::std_specs::ops::{AddSpecImpl, SubSpecImpl, MulSpecImpl, DivSpecImpl, RemSpecImpl};
 
@@ -261,6 +263,9 @@ uint_ops!(Uint512, u512_max());
 verus! {
 
 pub open spec fn nat_pow(b: nat, e: nat) -> nat decreases e { if e == 0 { 1 } else { b * nat_pow(b, (e - 1) as nat) } }
+/// `u128::pow` (overflow panics under overflow-checks = true)
+pub assume_specification [ u128::pow ] (base: u128, exp: u32) -> (r: u128)
+    ensures nat_pow(base as nat, exp as nat) <= U128_MAX, r as nat == nat_pow(base as nat, exp as nat);
 
 // ---------------------------------------------------------------- constructors / conversions
 impl Uint64 {
